@@ -398,7 +398,7 @@ def layout_slots(tier):
     slots = {
         "pre": [("",), (), (KW_COMMENT,), ("# version 30001", "")],
         "name_gap": [("",), ()],
-        "suffix": [" #", "#", None],
+        "suffix": [" #", "#", None, " #desc"],
         "post_labels": [(), ("",), ("# rows follow",), (" \t",)],
         "sep": ["\t", " ", "  \t "],
         "row_ws": [("", "", ""), ("  ", "", ""), ("", " \t", " "), ("\t", "   ", "\t ")],  # row lead, row trail, keyword/label-line trail
@@ -425,6 +425,9 @@ def build_text(case):
     rw = layout.pop("row_ws")
     suffix = layout.pop("suffix")
     numbered = suffix is not None
+    if suffix == " #desc":   # '#n' comments that count down: still only comments
+        suffix = " #"
+        layout["number_order"] = "descending"
     layout.update(row_lead=rw[0], row_trail=rw[1], kw_trail=rw[2])
     if numbered:
         layout["suffix"] = suffix
@@ -441,7 +444,7 @@ def execute_text(case, obs):
     # harness self-check: the independent tokenizer finds exactly what the generator put in
     tb = startok.parse(text)
     if [(b["name"], b["labels"], b["rows"]) for b in tb] != [(b["name"], b["labels"], b["rows"]) for b in blocks] or any(
-            (b["numbers"] != (list(range(1, len(b["labels"]) + 1)) if numbered else [None] * len(b["labels"]))) for b in tb):
+            (sorted(b["numbers"], key=lambda v: (v is None, v)) != (list(range(1, len(b["labels"]) + 1)) if numbered else [None] * len(b["labels"]))) for b in tb):
         raise HarnessError(f"tokenizer and generator disagree on {text!r}")
     with open("c02_t.star", "wb") as f:
         f.write(text.encode("utf-8"))
